@@ -5,6 +5,13 @@ reference-count protocol, crash recovery)."""
 import json, os, re, subprocess, sys, time, glob, concurrent.futures as cf
 import vlib
 from vlib import VERIF, WORK, log
+import builtins as _b
+def open(f, mode="r", *a, **kw):
+    """text files are read / written tolerantly: an implementation that has gone wrong may print arbitrary bytes"""
+    if "b" not in mode and "errors" not in kw:
+        kw["errors"] = "replace"
+    return _b.open(f, mode, *a, **kw)
+
 
 JOBS = min(14, os.cpu_count() or 4)
 
@@ -212,6 +219,8 @@ def monitor_sched(case_lines, out_lines, S, F):
                     for h2, (o2, c2) in ([] if wipes_ else list(live.items()) + [(None, d) for d in dead]):
                         if off < o2 + c2 and o2 < off + cap:
                             V.append(("C02", "overlap", f"t={tid} {' '.join(op)} got [{off},{off+cap}) which overlaps the live range [{o2},{o2+c2})"))
+                            # (a live range can only be handed out again if some release gave back more than its own extent)
+                            V.append(("C13", "overlap", f"t={tid} {' '.join(op)} got [{off},{off+cap}), part of the live range [{o2},{o2+c2}): a release gave back what it did not own"))
                     live[int(op[1])] = (off, cap)
                 if op[0].startswith("alloc_bytes") and o.get("z") == "0":
                     V.append(("C02", "nonzero", f"t={tid} {' '.join(op)} returned non-zero bytes"))
@@ -307,7 +316,7 @@ def monitor_sched(case_lines, out_lines, S, F):
     return V
 
 def hb_races(out_path):
-    p = subprocess.run([vlib.DRIVER, "hb"], stdin=open(out_path), stdout=subprocess.PIPE, text=True)
+    p = subprocess.run([vlib.DRIVER, "hb"], stdin=open(out_path), stdout=subprocess.PIPE, text=True, errors="replace")
     res, cur, k = [], [], 0
     for l in p.stdout.splitlines():
         if l.strip() == "end":
@@ -389,7 +398,7 @@ def run_cases(prefix, cases, model=True):
         return (1 if died else 0), True
     try:
         with open(prefix + ".cases") as fin, open(prefix + ".model", "w") as fout:
-            subprocess.run([vlib.DRIVER, "conc"], stdin=fin, stdout=fout, stderr=subprocess.PIPE, text=True)
+            subprocess.run([vlib.DRIVER, "conc"], stdin=fin, stdout=fout, stderr=subprocess.PIPE, text=True, errors="replace")
     except OSError:
         return (1 if died else 0), False
     return (1 if died else 0), True
@@ -496,7 +505,7 @@ def gen_shard0(args):
     ok = True
     try:
         with open(prefix + ".cases") as fin, open(prefix + ".model", "w") as fout:
-            subprocess.run([vlib.DRIVER, "conc"], stdin=fin, stdout=fout, stderr=subprocess.PIPE, text=True)
+            subprocess.run([vlib.DRIVER, "conc"], stdin=fin, stdout=fout, stderr=subprocess.PIPE, text=True, errors="replace")
     except OSError:
         ok = False
     return prefix, p.returncode, ok
@@ -516,7 +525,7 @@ def sched_stage(prop, P, tags, tier, seed, replay, wdir, S, F):
         open(pre + ".cases", "w").write(text if text.rstrip().endswith("end") else text + "\nend\n")
         robust_run(pre + ".cases", pre + ".impl")
         with open(pre + ".cases") as fin, open(pre + ".model", "w") as fout:
-            subprocess.run([vlib.DRIVER, "conc"], stdin=fin, stdout=fout, stderr=subprocess.PIPE, text=True)
+            subprocess.run([vlib.DRIVER, "conc"], stdin=fin, stdout=fout, stderr=subprocess.PIPE, text=True, errors="replace")
         streams.append(pre)
     if not replay:
         jobs = []
